@@ -138,6 +138,7 @@ def main():
     a = sys.argv[1:]
     verif, files, limit, budget, shards, out, prev = "/verif", None, 0, "25s", "16", None, None
     resume = False
+    all_checks = False
     while a:
         x = a.pop(0)
         if x == "--verif": verif = a.pop(0)
@@ -148,6 +149,7 @@ def main():
         elif x == "--out": out = a.pop(0)
         elif x == "--only-survivors-of": prev = a.pop(0)
         elif x == "--resume": resume = True
+        elif x == "--all-checks": all_checks = True
     files = files or [f for f in sorted(os.listdir(REPO)) if f.endswith(".go") and not f.endswith("_test.go")]
     want = None
     if prev:
@@ -195,8 +197,10 @@ def main():
                             rec["status"] = "survived"; rec["tried"] = []
                             e2 = dict(env, VERIF_OVERLAY="%s=%s" % (os.path.join(REPO, fname), mfile))
                             order = props_for(fname, funcs[i])
+                            if not all_checks:
+                                order = order[:FIRST_N.get(fname, 6) + 2]  # the checks concerned with this code (+2)
                             for k, prop in enumerate(order):
-                                if k >= len(order) - (20 - FIRST_N.get(fname, 6)):
+                                if k >= FIRST_N.get(fname, 6):
                                     e2["VERIF_BUDGET"] = "8s"  # the checks that are not about this code: a short look
                                 rc, o = sh("timeout 400 %s/bin/flytmc check %s --tier quick 2>&1 | tail -40" % (verif, prop), cwd=verif, env=e2)
                                 rec["tried"].append(prop)
